@@ -210,7 +210,16 @@ where
             } else {
                 None
             };
-            fast.unwrap_or_else(|| HybridProtection::fallback(node, storage))
+            fast.unwrap_or_else(|| {
+                if node.discarded() {
+                    // The fast attempt may have run a destructor of the pointee and that one may
+                    // have done loads of its own, wrapping the generation around. The node is
+                    // on its way out then; entering again provides one that can be used.
+                    LocalNode::with(|node| HybridProtection::fallback(node, storage))
+                } else {
+                    HybridProtection::fallback(node, storage)
+                }
+            })
         })
     }
     unsafe fn wait_for_readers(&self, old: *const T::Base, storage: &AtomicPtr<T::Base>) {
